@@ -193,6 +193,29 @@ def sym_trunc(x):
     return SI(n, -64, 64)
 
 
+def _p_floor(x):
+    if not _is_sym(x):
+        return np.floor(x)
+    if isinstance(x, np.ndarray):
+        out = np.empty(x.shape, dtype=object)
+        for idx in np.ndindex(*x.shape):
+            out[idx] = sym_floor(x[idx])
+        return out
+    return sym_floor(x)
+
+
+def _p_ceil(x):
+    if not _is_sym(x):
+        return np.ceil(x)
+    f = lambda v: -sym_floor(-S.of(v)) if not isinstance(v, SI) else v
+    if isinstance(x, np.ndarray):
+        out = np.empty(x.shape, dtype=object)
+        for idx in np.ndindex(*x.shape):
+            out[idx] = f(x[idx])
+        return out
+    return f(x)
+
+
 def _p_allclose(a, b, *args, **kw):
     if not (_is_sym(a) or _is_sym(b)):
         return np.allclose(a, b, *args, **kw)
@@ -230,7 +253,7 @@ def _p_isnan(x):
 
 DEFAULT_NP_OVERRIDES = {
     "zeros": _p_zeros, "empty": _p_empty, "ones": _p_ones, "exp": _p_exp,
-    "round": _p_round, "allclose": _p_allclose, "real": _p_real, "isnan": _p_isnan,
+    "round": _p_round, "allclose": _p_allclose, "real": _p_real, "isnan": _p_isnan, "floor": _p_floor, "ceil": _p_ceil,
 }
 
 _DTYPE_NAMES = ("NpDtype", "NpDtypeReal")
